@@ -6,7 +6,7 @@ import z3
 from pyvc import alg, dsl
 from pyvc.alg import Num
 from pyvc.builtins_model import SymSeq
-from pyvc.interp import Model, Obj, SBool, Unsupported
+from pyvc.interp import Model, Obj, PathEnd, SBool, Unsupported
 from contracts.models import RngModel
 from contracts.c01_smc import OpaqueTree, TreeDist, base_registry
 
@@ -253,3 +253,221 @@ def h_sample_schedule(I, fi):
     # reached only on the path that leaves the loop
     P.check("schedule.exit-iteration", P.z(I.to_num(s.fields["iteration"])) == P.z(T), "the pass ends with iteration == num_iterations", kind="post")
     dsl.cover(I, "after-loop")
+
+
+# ----------------------------------------------------------------------------------------------------------- L2: the retained path
+
+
+CSMC = "phyclone.smc.samplers.conditional.ConditionalSMCSampler"
+
+
+def h_constrained_path(I, fi):
+    """ConditionalSMCSampler._get_constrained_path: one arbitrary step t of the construction of the retained path.
+
+    From an arbitrary state (tree built so far T_{t-1} = parent_tree = new_tree, retained particle p_{t-1} = constrained_path[-1],
+    node map defined on the clones created so far) the step for data point x_t
+      - works on a copy (T_{t-1} is not modified: it is the parent tree of the proposal),
+      - places x_t where the conditioned tree has it: outliers / the image of its clone / a new top-level clone over the images of the clone's children,
+      - asks the kernel for the proposal of (x_t, p_{t-1}, T_{t-1}), evaluates its log_p at the holder of T_t, and appends
+        kernel.create_particle(log_q, p_{t-1}, holder(T_t));  afterwards parent_tree is T_t.
+    The first step starts from the state the function really initialises (path [None], no parent tree, empty map, empty tree).
+    requires (from the order drawn by RootPermutationDistribution.sample, C09): the children of a clone whose first data point is
+    being placed have all been created already."""
+    from contracts.models import AbsTree, BaseTree, DataPointModel
+    P = I.P
+    first = P.decide(2) == 0
+    dsl.cover(I, "path.first-step" if first else "path.later-step")
+    T = alg.sym("T", "Int")
+    P.assume(P.z(T) >= 1)
+    TD, PD = ("tree_dist",), ("perm_dist",)
+    log = []
+
+    class Proposal(Model):
+        def __init__(self, k):
+            self.k = k
+
+        def m_log_p(self, I_, h):
+            log.append(("log_p", self.k, h))
+            return alg.raw_app("log_q", Num.const(self.k))
+
+    class Kernel(Model):
+        def a_tree_dist(self, I_):
+            return TD
+
+        def a_perm_dist(self, I_):
+            return PD
+
+        def m_get_proposal_distribution(self, I_, dp, pp, pt=None):
+            log.append(("proposal", dp, pp, pt, None if pt is None else pt.placement))
+            return Proposal(len(log))
+
+        def m_create_particle(self, I_, lq, pp, h):
+            log.append(("create", lq, pp, h))
+            return ("particle", len(log))
+
+    class Holder(Model):
+        def __init__(self, tree, td, pd):
+            self.tree, self.td, self.pd = tree, td, pd
+            self.snapshot = tree.placement
+
+    I.registry.class_models["TreeHolder"] = lambda I_, tree, td, pd: Holder(tree, td, pd)
+    I.registry.class_models["Tree"] = lambda I_, grid_size=None: AbsTree(None)
+    mapped = z3.Function("created", z3.IntSort(), z3.BoolSort())
+
+    class NodeMap(Model):
+        def __init__(self):
+            self.stores = []
+
+        def contains(self, I_, k):
+            if first:
+                return False
+            return SBool(mapped(P.z(I_.to_num(k))))
+
+        def getitem(self, I_, k):
+            kn = I_.to_num(k)
+            for a, b in self.stores:
+                if (a - kn).is_zero():
+                    return b
+            if first:
+                I_.P.check("key-present[node_map@%s]" % I_.site(None), False, "lookup in the empty node map")
+            else:
+                I_.P.check("key-present[node_map@%s]" % I_.site(None), mapped(P.z(kn)), "the clone has been created already")
+            return alg.raw_app("image", kn, sort="Int")
+
+        def setitem(self, I_, k, v):
+            self.stores.append((I_.to_num(k), v))
+
+    node_map = NodeMap()
+
+    class Labels(Model):
+        def getitem(self, I_, idx):
+            return alg.raw_app("label_x", I_.to_num(idx), sort="Int")
+
+    class Cond(Model):
+        """the tree the pass is conditioned on"""
+
+        py_classes = ("Tree",)
+
+        def a_labels(self, I_):
+            return Labels()
+
+        def a_grid_size(self, I_):
+            return ("grid",)
+
+        def a_outlier_node_name(self, I_):
+            return -1
+
+        def a_graph(self, I_):
+            return ("graph-of-x",)
+
+        def m_get_children(self, I_, node):
+            n = alg.raw_app("nch_x", I_.to_num(node), sort="Int")
+            I_.P.assume(I_.P.z(n) >= 0)
+            if first:
+                I_.P.assume(I_.P.z(n) == 0, "requires (C09 order): the clone of the very first data point has no children")
+            # requires: children precede their parent in the order (C09), so they are created already
+            return SymSeq("children_x(%s)" % I_.to_num(node).key(), n, lambda i: alg.raw_app("child_x", I_.to_num(node), I_.to_num(i), sort="Int"),
+                          (lambda I2, i: [] if first else [mapped(I2.P.z(alg.raw_app("child_x", I_.to_num(node), I2.to_num(i), sort="Int")))]))
+
+    class Rx(Model):
+        def m_is_isomorphic(self, I_, a, b, id_order=True):
+            return True
+
+    I.registry.globals_override["rx"] = Rx()
+    cond = Cond()
+    s = Obj(fi.cls)
+    dps = SymSeq("sigma", T, lambda t: DataPointModel("x%s" % I.to_num(t).key()))
+    s.fields.update({"kernel": Kernel(), "data_points": dps})
+    st = {}
+
+    class PathList(Model):
+        def __init__(self, last):
+            self.last, self.appended = last, []
+
+        def getitem(self, I_, k):
+            if not (I_.to_num(k) + 1).is_zero():
+                return ("path-element", I_.to_num(k).key())  # some other element of the path: not the retained particle of step t-1
+            return self.appended[-1] if self.appended else self.last
+
+        def m_append(self, I_, x):
+            self.appended.append(x)
+
+    def loop(I_, node, fr):
+        seq = I_.eval(node.iter, fr)
+        P.check("L2.one-step-per-data-point", seq is dps, "the retained path has one step per data point of the order, in that order", kind="post")
+        init_path = fr.vars.get("constrained_path")
+        if first:
+            P.check("L2.initial-state", isinstance(init_path, list) and init_path == [None] and fr.vars.get("parent_tree") is None and isinstance(fr.vars.get("new_tree"), AbsTree)
+                    and fr.vars["new_tree"].base is None and fr.vars["new_tree"].placement is None and fr.vars.get("node_map") == {},
+                    "the construction starts from the empty tree, no retained particle, no parent tree and an empty node map", kind="post")
+            t = Num.const(0)
+            prev, base = None, None
+            tree0 = fr.vars["new_tree"]
+            path = PathList(None)
+        else:
+            t = alg.sym("t", "Int")
+            P.assume(z3.And(P.z(t) >= 1, P.z(t) < P.z(T)))
+            prev = ("particle", "t-1")
+            base = BaseTree(I_, "P")
+            tree0 = AbsTree(base)
+            fr.vars["parent_tree"] = tree0
+            path = PathList(prev)
+        fr.vars["new_tree"] = tree0
+        fr.vars["constrained_path"] = path
+        fr.vars["node_map"] = node_map
+        dp = dps.core_at(I_, t)
+        I_.assign_target(node.target, dp, fr)
+        I_.exec_block(node.body, fr)
+        lab = alg.raw_app("label_x", dp.idx, sort="Int")
+        new_tree = fr.vars["new_tree"]
+        P.check("L2.works-on-a-copy", new_tree is not tree0 and tree0.placement is None and isinstance(new_tree, AbsTree) and new_tree.base is base,
+                "the step extends a copy; the tree of the previous step (the proposal's parent tree) is not modified", kind="post")
+        pl = new_tree.placement
+        if pl is None:
+            P.check("L2.placement", False, "the data point is placed", kind="post")
+            raise PathEnd()
+        if pl[0] == "outlier":
+            dsl.cover(I_, "path.outlier")
+            P.check("L2.placement[outlier]", P.z(lab) == -1 and new_tree.dp is dp, "a data point that is an outlier in the conditioned tree is added to the outliers", kind="post")
+        elif pl[0] == "exist":
+            dsl.cover(I_, "path.existing-clone")
+            P.check("L2.placement[existing]", z3.And(P.z(lab) != -1, mapped(P.z(lab)), P.z(I_.to_num(pl[1])) == P.z(alg.raw_app("image", lab, sort="Int"))) if new_tree.dp is dp else False,
+                    "a data point whose clone has been created already is added to the image of that clone", kind="post")
+            P.check("L2.node-map-unchanged[existing]", not node_map.stores, "the node map is not changed", kind="post")
+        else:
+            dsl.cover(I_, "path.new-clone")
+            kids = pl[2]
+            nch = alg.raw_app("nch_x", lab, sort="Int")
+            if isinstance(kids, list):
+                okk = len(kids) == 0 and not P.feasible(P.z(nch) > 0)  # the clone has no children
+            else:
+                okk = isinstance(kids, SymSeq) and not kids.tail and not P.feasible(P.z(kids.core_len) != P.z(nch))
+                if okk and P.feasible(P.z(nch) > 0):
+                    j = alg.sym("j_child", "Int")
+                    P.assume(z3.And(P.z(j) >= 0, P.z(j) < P.z(nch)))
+                    okk = (I_.to_num(kids.core_at(I_, j)) - alg.raw_app("image", alg.raw_app("child_x", lab, j, sort="Int"), sort="Int")).is_zero()
+            P.check("L2.placement[new]", z3.And(P.z(lab) != -1, z3.BoolVal(True) if first else z3.Not(mapped(P.z(lab)))) if (okk and new_tree.dp is dp) else False,
+                    "the first data point of a clone creates a new top-level clone whose children are the images of the clone's children, and is added to it", kind="post")
+            P.check("L2.node-map-extended[new]", len(node_map.stores) == 1 and (node_map.stores[0][0] - lab).is_zero() and (I_.to_num(node_map.stores[0][1]) - I_.to_num(pl[1])).is_zero(),
+                    "the node map sends the clone to the new top-level clone", kind="post")
+        kinds = [e[0] for e in log]
+        ok = kinds == ["proposal", "log_p", "create"] and len(path.appended) == 1
+        P.check("L2.step-shape", ok, "one proposal, one density evaluation, one particle appended", kind="post")
+        if not ok:
+            raise PathEnd()
+        pr, lp, cr = log
+        P.check("L2.proposal-of-the-previous-state", pr[1] is dp and pr[2] is prev and pr[3] is (None if first else tree0) and (first or pr[4] is None),
+                "the proposal is the kernel's proposal for (x_t, retained particle t-1, tree of step t-1)", kind="post")
+        h = lp[2]
+        P.check("L2.density-of-the-retained-tree", isinstance(h, Holder) and h.tree is new_tree and h.td is TD and h.pd is PD and h.snapshot is new_tree.placement and lp[1] == 1,
+                "log_q is that proposal's log_p at the holder of the tree of step t (built after the placement)", kind="post")
+        P.check("L2.particle", isinstance(cr[1], Num) and cr[1].key() == alg.raw_app("log_q", Num.const(1)).key() and cr[2] is prev and cr[3] is h and path.appended[0] == ("particle", 3),
+                "the retained particle is kernel.create_particle(log_q, retained particle t-1, holder) and is appended to the path", kind="post")
+        P.check("L2.parent-tree-advances", fr.vars.get("parent_tree") is new_tree, "the tree of step t becomes the parent tree of step t+1", kind="post")
+        raise PathEnd()
+
+    I.registry.loop_invariants[(fi.qualname, 0)] = loop
+    I.call_function(fi, [s, cond], {}, force_inline=True)
+
+
+PATH_COVERS = ["path.first-step", "path.later-step", "path.outlier", "path.existing-clone", "path.new-clone"]
